@@ -703,9 +703,12 @@ pub mod verif_hooks {
     }
 
     /// The per-test (index, output, exit code) triples a divided stream is split into
-    pub fn iterate_divided_output(output: &[u8]) -> Result<Vec<(usize, Vec<u8>, i32)>, String> {
+    pub fn iterate_divided_output(
+        salt: &str,
+        output: &[u8],
+    ) -> Result<Vec<(usize, Vec<u8>, i32)>, String> {
         let mut collected = vec![];
-        super::iterate_divided_output("verif", output, |index, output, exit_code| {
+        super::iterate_divided_output("verif", salt, output, |index, output, exit_code| {
             collected.push((index, output.to_vec(), exit_code));
             Ok(())
         })
